@@ -63,7 +63,7 @@ def explore_c20(rng, tier, res, deep=False):
         for i in range(n):
             res.evaluations += 1
             doc = doc_with_all_kinds(rng, rng.choice([1, 2, 3]))
-            kind = rng.choice(["valid"] * 5 + ["syntax", "type", "index", "name", "badjson", "badbytes", "deep", "mutant", "rootish", "rootish", "spaced"])
+            kind = rng.choice(["valid"] * 5 + ["syntax", "type", "index", "name", "badjson", "badbytes", "deep", "mutant", "rootish", "rootish", "spaced", "bignum"])
             q = walk_query(rng, doc, g, filters=True) if rng.random() < 0.5 else g.query()
             FALSY = [{}, [], "", 0, False, None, 0.0, -0.0]
             if i < 2 * len(FALSY):
@@ -95,11 +95,19 @@ def explore_c20(rng, tier, res, deep=False):
                 q = gen.mutate(rng, q)
             elif kind == "badjson":
                 doc_bytes = rng.choice([b"}}invalid", b"", b"[1,", b"{'a':1}", b"[1] x", b"nul"])
+            elif kind == "bignum":
+                # well-formed JSON numbers that overflow a double (json.load gives inf), Python's NaN/Infinity literals,
+                # integers beyond 2^64: what find().values() holds is what must be written, whole
+                doc_bytes = rng.choice([b"[1, 2, 1e999]", b'{"a": -1e400, "b": [1, {"c": 1E+999}]}', b"[Infinity, 1]", b"[1, NaN]", b'{"k": [-Infinity]}',
+                                        b"[123456789012345678901234567890, 1e308, 5e-324]", b"[1.7976931348623157e308, 1.7976931348623159e308]"])
+                q = rng.choice(["$[*]", "$..*", "$", "$[?@ > 1]", "$[-1]", "$..[?@]", "$.a", "$.b[1].c", "$[0]"])
             elif kind == "badbytes":
                 doc_bytes = rng.choice([b"\xff\xfe\xfd", b'"\xff"', b"[\"\xc3\x28\"]", b"\x80"])
             elif kind == "deep":
                 q = "$..*"
                 doc_bytes = json.dumps(deep_doc).encode()
+            if kind in ("bignum", "badjson", "badbytes", "deep"):
+                doc = doc_bytes.decode("utf8", "replace")[:300]  # what is reported as the document
             debug = rng.random() < 0.2
             pretty = rng.random() < 0.4
             use_rfile = rng.random() < (0.7 if kind == "spaced" else 0.3)
